@@ -260,6 +260,10 @@ fn check_cli(c: &Case, ctx: &Ctx) -> Outcome {
         let ox = nk(ctx, &dir, "ox.skf")?;
         model::compare_nk(&xo, &t.merge(&to), k, rc, Some(k_bits_for(k))).map_err(|m| Outcome::Fail(format!("merge x o: {m}")))?;
         model::compare_nk(&ox, &to.merge(&t), k, rc, Some(k_bits_for(k))).map_err(|m| Outcome::Fail(format!("merge o x: {m}")))?;
+        // adding to a collection with the collection as second argument: the output names a later input
+        std::fs::copy(dir.join("x.skf"), dir.join("acc.skf")).map_err(|e| Outcome::Infra(e.to_string()))?;
+        must_ok(&run_ska(ctx, &dir, &["merge", "o.skf", "acc.skf", "-o", "acc"]), "ska merge o.skf acc.skf -o acc")?;
+        model::compare_nk(&nk(ctx, &dir, "acc.skf")?, &to.merge(&t), k, rc, Some(k_bits_for(k))).map_err(|m| Outcome::Fail(format!("merge o acc -o acc (output is also the second input): {m}")))?;
         // three files, the outer two sharing k-mers that the middle one lacks: any order gives the model's table
         // (in half of the cases under the very same name: names are labels, columns are positional)
         let third: Vec<Sample> = vec![(if k % 4 == 1 { samples[0].0.clone() } else { "again".to_string() }, samples[0].1.clone())];
